@@ -22,7 +22,7 @@ from vf.props.c01 import stream
 
 ID = 'C04'
 LEVEL = 'exploration'
-RULE = ('Hypothesis draws the role (forward / web / reverse), 1..5 requests (GET or POST with Content-Length body; same or '
+RULE = ('Hypothesis draws the role (forward / web / reverse), 1..5 requests (GET or POST with a Content-Length or chunked (1..3 chunks) body; same or '
         'different origins/routes), keep-alive vs pipelined, per-request cut sets, a packing of segments (several requests '
         'per segment), and the schedule. Non-trivial: >= 2 requests AND (>= 2 requests in one segment OR a request split '
         'across segments OR two distinct origins/routes); distinct by case hash.')
